@@ -17,10 +17,15 @@ package latency
 //@   note the metadata sink is assumed not to touch the tracker
 
 // Compute folds one latency sample into the running batch, under the lock.
+// latSamples[l]: samples folded into tracker l; lastSampleTs[l]: the update timestamp of the latest one (ghost history).
+//@ ghost latSamples gmap[ref]int
+//@ ghost lastSampleTs gmap[ref]int
 //@ func (*Latency).Compute
 //@   props C15 C12
 //@   arith wrap
 //@   locks l
+//@   effect latSamples := upd(latSamples, l, latSamples[l] + 1)
+//@   effect lastSampleTs := upd(lastSampleTs, l, tinst(ts))
 //@   requires l != nil && l.compute != nil && l.scaleFactor != 0 && Now != nil
 //@   modifies l.start
 //@   ensures [one-sample-counted C15] l.count == wrap64s(old(l.count) + 1)
